@@ -1093,7 +1093,8 @@ class HeteroscedasticConditional(conditional.ConditionalGaussianPDF):
     def _update_omega_star(self, p_x: pdf.GaussianPDF, y: Float[Array, "N Dy"], W_i: Float[Array, "Dx+1"], a_i: Float[Array, "Dy"], omega_star: Float[Array, "N"]) -> Float[Array, "N"]:      
         quadratic_integral, quartic_integral = self._lower_bound_integrals(p_x=p_x, y=y, W_i=W_i, a_i=a_i, omega_star=omega_star, compute_fourth_order=True)
         # a noise unit that does not load on y has a vanishing quadratic integral: keep the current value there (0/0 otherwise)
-        positive = quadratic_integral > 0.
+        # (in far tails the moments are dominated by rounding and can even change sign: such ratios are ignored as well)
+        positive = jnp.logical_and(quadratic_integral > 0., quartic_integral >= 0.)
         ratio = quartic_integral / jnp.where(positive, quadratic_integral, 1.)
         omega_star = jnp.where(positive, jnp.sqrt(ratio), omega_star)[0]
         return omega_star
@@ -1410,8 +1411,10 @@ class HeteroscedasticReLUConditional(HeteroscedasticConditional):
     
     def _update_omega_star(self, p_x: pdf.GaussianPDF, y: Float[Array, "N Dy"], W_i: Float[Array, "Dx+1"], a_i: Float[Array, "Dy"], omega_star: Float[Array, "N"]) -> Float[Array, "N"]:      
         cubic_integral, quartic_integral = self._lower_bound_integrals(p_x=p_x, y=y, W_i=W_i, a_i=a_i, omega_star=omega_star, compute_fourth_order=True)
-        cubic_integral= jnp.where(cubic_integral != 0., cubic_integral, 1.)
-        omega_star = (quartic_integral / cubic_integral)[0]
+        # both integrals are non-negative; in far tails they are dominated by rounding and can vanish or change sign:
+        # keep the current value then (any non-negative omega gives a valid bound)
+        valid = jnp.logical_and(cubic_integral > 0., quartic_integral >= 0.)
+        omega_star = jnp.where(valid, quartic_integral / jnp.where(valid, cubic_integral, 1.), omega_star)[0]
     
         return omega_star
 
